@@ -466,10 +466,23 @@ def _em(case, ctx, op):
         seams.reset_environment()
         seams.install_parallel(random.Random(jobseed), ctx)
         model = build_structure(world, config, names, latents=lat)
-        em = ExpectationMaximization(model, df, state_names=sn)
         kw = {}
         if init:
             kw["init_cpds"] = {k_: v_.copy() for k_, v_ in init.items()}
+        route = op["jobseed"] % 4
+        if route in (0, 1):
+            # the same estimation through the fit() dispatch of the network (0) or of a plain DAG carrying the latent set (1)
+            target = model
+            if route == 1:
+                from pgmpy.base import DAG
+
+                target = DAG(latents=set(model.latents))
+                target.add_nodes_from(list(model.nodes()))
+                target.add_edges_from(list(model.edges()))
+            fitted = target.fit(df, estimator=ExpectationMaximization, state_names=sn, n_jobs=n_jobs, latent_card=latent_card or None, max_iter=k, atol=1e-30,
+                                batch_size=batch_size, seed=op["seed"], show_progress=False, **kw)
+            return list(fitted.get_cpds())
+        em = ExpectationMaximization(model, df, state_names=sn)
         return em.get_parameters(latent_card=latent_card or None, max_iter=k, atol=1e-30, n_jobs=n_jobs, batch_size=batch_size, seed=op["seed"],
                                  show_progress=False, **kw)
 
